@@ -558,11 +558,16 @@ func (l *lexer) subst() bool {
 				}
 				verifAlias(l, 3, 0, w.Value)
 
-				r := strings.NewReader(strings.TrimRight(v, "\t ") + " ")
+				t := strings.TrimRight(v, "\t ")
+				if n := len(t) - len(strings.TrimRight(t, `\`)); n%2 != 0 && len(t) < len(v) {
+					// a blank quoted by a backslash belongs to the value
+					t = v[:len(t)+1]
+				}
+				r := strings.NewReader(t + " ")
 				l.aliases = append(l.aliases, &alias{
 					name:  w.Value,
 					value: r,
-					blank: len(v) > r.Len()-1,
+					blank: len(v) > len(t),
 				})
 				l.word = nil
 				return true
